@@ -137,13 +137,16 @@ def search(ctx, checking):
     def one(d):
         n[0] += 1
         return statement(checking, d)
-    f = one(b"") or one(b"123456789")
+    f = one(b"")
     if f:
         return f, n[0]
-    for a in range(256):
+    for a in range(256):          # smallest inputs first, so the reported input is small
         f = one([a])
         if f:
             return f, n[0]
+    f = one(b"123456789")
+    if f:
+        return f, n[0]
     for a in range(256):
         for b in range(256):
             f = one([a, b])
